@@ -24,9 +24,9 @@ LEVEL = "exploration"
 RULE = ("scenario = NDJSON byte stream of 1..12 lines (valid messages and junk of each class) x cut positions (seeded, 1-byte, "
         "targeted inside UTF-8 sequences / CRLF / after LF, plus a systematic sweep of every single cut of fixed base streams) x burst timing; "
         "non-trivial = at least one cut fell strictly inside a line, or a junk line preceded a valid one")
-PROBES = ["child_exited_with_unread_output", "earlier_session_ended_mid_line", "legacy_request_stream_registered", "legacy_request_stream_abandoned", "burst_over_100_lines_in_one_read", "cut_inside_utf8_sequence", "cut_inside_crlf", "cut_right_after_lf", "junk_before_valid", "one_byte_chunks",
+PROBES = ["consumer_listens_to_notifications_only", "child_exited_with_unread_output", "earlier_session_ended_mid_line", "legacy_request_stream_registered", "legacy_request_stream_abandoned", "burst_over_100_lines_in_one_read", "cut_inside_utf8_sequence", "cut_inside_crlf", "cut_right_after_lf", "junk_before_valid", "one_byte_chunks",
           "line_separator_chars_in_payload"]
-PROBES_THOROUGH = ["read_capped_at_max_bytes"]
+PROBES_THOROUGH = ["line_of_several_mib", "read_capped_at_max_bytes"]
 TIERS = {"quick": {"runs": 15000, "wall": 45.0}, "thorough": {"runs": 1000000, "wall": 560.0}}
 ASSUMPTIONS = [
     "receive() returns exactly one piece the child wrote (the reader is at least as fast as the writer): every such schedule is realisable by a real pipe",
@@ -106,9 +106,21 @@ def _gen_lines(rng, n, junk_rate):
 def stream_bytes(lines) -> bytes:
     out = bytearray()
     for ln in lines:
-        out += bytes.fromhex(ln["hex"]) if "hex" in ln else ln["text"].encode("utf-8")
+        if "giant" in ln:
+            out += giant_text(ln["giant"]).encode("utf-8")
+        else:
+            out += bytes.fromhex(ln["hex"]) if "hex" in ln else ln["text"].encode("utf-8")
         out += ln["term"].encode()
     return bytes(out)
+
+
+def giant_text(g) -> str:
+    """one legal notification line of exactly g['bytes'] UTF-8 bytes (kept as a recipe so scenarios and replay files stay small)"""
+    head, tail = '{"jsonrpc":"2.0","method":"notifications/message","params":{"data":"', '"}}'
+    room = g["bytes"] - len(head) - len(tail)
+    ch = g.get("ch", "x")
+    k = len(ch.encode("utf-8"))
+    return head + ch * (room // k) + "x" * (room % k) + tail
 
 
 def _targeted_cuts(data: bytes):
@@ -133,6 +145,10 @@ def generate(rng: random.Random, tier: str) -> dict:
         filler = rng.choice(["é", "€", "\U0001F600"]) * rng.choice([30000, 40000])
         lines.insert(rng.randrange(0, len(lines) + 1), {"kind": "notification", "term": "\n", "text": json.dumps(
             {"jsonrpc": "2.0", "method": "notifications/message", "params": {"data": "x" * rng.randrange(0, 4) + filler}}, ensure_ascii=False)})
+    if rng.random() < (0.006 if big else 0.003):
+        # a legal line of several MiB (just under / over 8 MiB, 4 MiB, 1 MiB), followed by ordinary lines in the same reads
+        lines.insert(rng.randrange(0, len(lines) + 1), {"kind": "notification", "term": "\n",
+                                                        "giant": {"bytes": rng.choice([2 ** 23 - 100, 2 ** 23 - 100, 2 ** 23 + 4096, 2 ** 22, 2 ** 20]), "ch": rng.choice(["x", "é", "\U0001F600"])}})
     burst = 0
     if rng.random() < (0.04 if big else 0.02):
         # more lines than the read stream buffers (100), all available to a single read
@@ -143,6 +159,8 @@ def generate(rng: random.Random, tier: str) -> dict:
     data = stream_bytes(lines)
     L = len(data)
     strategy = rng.choice(["whole", "random", "random", "one_byte", "targeted", "targeted", "per_line"]) if not burst else rng.choice(["whole", "whole", "random"])
+    if any("giant" in ln for ln in lines):
+        strategy = rng.choice(["whole", "whole", "random", "per_line"])
     cuts = []
     if strategy == "random":
         cuts = sorted(set(rng.randrange(1, L) for _ in range(rng.choice([1, 2, 3, 5, 10])))) if L > 1 else []
@@ -176,7 +194,9 @@ def generate(rng: random.Random, tier: str) -> dict:
     if rng.random() < 0.06:
         # an earlier session over the SAME client object that ended in the middle of a line
         prelude = {"tail": rng.choice(['{"jsonrpc":"2.0","method":"notifications/mess', '{"jsonrpc":"2.0","id":1,"result":{"t":"\u00e9', "garbage without newline"])}
-    return {"v": 1, "exit_after": exit_after, "prelude": prelude, "legacy_streams": legacy, "lines": lines, "cuts": cuts, "gap": gap, "hops": rng.choice([0, 0, 2]),
+    # the consumer only listens to notifications: it closes the main read stream right after entering, the session stays open
+    close_read = bool(burst) and rng.random() < 0.5
+    return {"v": 1, "close_read": close_read, "exit_after": exit_after, "prelude": prelude, "legacy_streams": legacy, "lines": lines, "cuts": cuts, "gap": gap, "hops": rng.choice([0, 0, 2]),
             "protocol_version": rng.choice([None, None, "2025-06-18", "2025-03-26"])}
 
 
@@ -211,6 +231,8 @@ SHRINK_LISTS = ["lines", "cuts"]
 
 
 def simplify(scn):
+    if scn.get("close_read"):
+        c = copy.deepcopy(scn); c["close_read"] = False; yield c
     if scn.get("prelude"):
         c = copy.deepcopy(scn); c["prelude"] = None; yield c
     if scn.get("exit_after") is not None:
@@ -297,7 +319,7 @@ def execute(scn: dict) -> dict:
                 # first session: one complete line, then a partial line, then silence until the context is left
                 child.write_stdout([b'{"jsonrpc":"2.0","method":"notifications/message","params":{"data":"prelude"}}\n' + scn["prelude"]["tail"].encode("utf-8")[:60]])
                 return
-            t = 0.0
+            t = ticks(5) if scn.get("close_read") else 0.0
             for i, p in enumerate(pieces):
                 sim.at(sim.now() + t, child.write_stdout, [p], tie=0, hops=scn["hops"])
                 t += ticks(scn["gap"])
@@ -339,7 +361,11 @@ def execute(scn: dict) -> dict:
                         into.append((sim.rec("client", "got", None), m))
 
                 async with anyio.create_task_group() as tg:
-                    tg.start_soon(drain, read_stream, st["read"], name="drain-read")
+                    if scn.get("close_read"):
+                        read_stream.close()
+                        sim.fault("consumer_closed_main_read_stream")
+                    else:
+                        tg.start_soon(drain, read_stream, st["read"], name="drain-read")
                     tg.start_soon(drain, client.notifications, st["notif"], name="drain-notif")
                     await anyio.sleep(st["t_last"] - sim.now() + 1.0)
                     st["reader_alive_hint"] = True
@@ -426,8 +452,13 @@ def execute(scn: dict) -> dict:
               f"first difference at #{k}: got={rest[k] if k < len(rest) else None!r:.160} expected={exp_list[k] if k < len(exp_list) else None!r:.160} "
               f"cuts={cuts[:8]} line_kinds={kinds}")
 
-    compare("read", got, expo)
+    if scn.get("close_read"):
+        probe("consumer_listens_to_notifications_only")
+    else:
+        compare("read", got, expo)
     compare("notification", gotn, expn)
+    if any("giant" in ln for ln in scn["lines"]):
+        probe("line_of_several_mib")
     out["history"] = {"bytes": len(data), "cuts": cuts[:20], "pieces": len(pieces), "line_kinds": kinds,
                       "expected": len(expo), "delivered": len(got), "expected_notifications": len(expn), "delivered_notifications": len(gotn)}
     return out
